@@ -158,7 +158,8 @@ theorem fmtOf_clean (name : String) (f : Fmt) (h : fmtOf name = some f) : Clean 
     | exact clean_evalKey | exact clean_galoisKey | exact clean_evalKeySet
     | exact clean_paramsBlock
     | exact clean_element _ clean_poly | exact clean_element _ clean_polyQP
-    | simp [u8, u32, u64, vecOf, Clean]
+    | simp [u8, u16, u32, u64, vecOf, Clean]
+    | simp [mapOf, u64, clean_poly, Clean]
     | simp [relinKey, clean_evalKey]
     | simp [publicKey, secretKey, clean_vectorQP, clean_polyQP]
     | simp [rgswCiphertext, clean_gadget, Clean]
